@@ -189,7 +189,41 @@ def policy_mixing(body, cfg):
     return dict(suspensions=[], assignments=asg)
 
 
-POLICIES = dict(naive=policy_naive, random=policy_random, idle=policy_idle, mixing=policy_mixing)
+def policy_chainpack(body, cfg):
+    """for workloads whose pipelines are total-order chains (every operator depends on all earlier ones; the request
+    only tells readiness, so the policy relies on that shape): packs the ready operator of an idle pipeline together
+    with up to two operators that follow it (not ready yet: they start inside the container when their predecessor
+    completes) into one small container, so that containers are killed with later operators still queued in them and
+    the next round retries the upstream operator alone while its successors are still failed"""
+    rng = random.Random(f"chain/{cfg['seed']}/{body['tick']}")
+    free = {pool['pool_id']: [pool['avail_cpu'], pool['avail_ram_gb']] for pool in body['pools']}
+    asg = []
+    for p in body['new_pipelines'] + body['other_pipelines']:
+        ops = p['operators']
+        if p['is_complete'] or any(o['state'] in ('assigned', 'running', 'suspending') for o in ops):
+            continue
+        k = next((i for i, o in enumerate(ops) if o['is_assignable_state'] and o['parents_complete']), None)
+        if k is None:
+            continue
+        pack = [ops[k]['id']]
+        for o in ops[k + 1:k + 1 + rng.choice([0, 0, 1, 2, 2])]:
+            if not o['is_assignable_state']:
+                break
+            pack.append(o['id'])
+        cpu = rng.randint(1, 2)
+        ram = rng.choice([0.5, 1, 1, 2, 3])
+        pool = next((pid for pid, f in free.items() if f[0] >= cpu and f[1] >= ram), None)
+        if pool is None:
+            continue
+        free[pool][0] -= cpu
+        free[pool][1] -= ram
+        asg.append(dict(operator_ids=pack, cpu=cpu, ram_gb=ram, pool_id=pool, priority=p['priority'],
+                        is_resume=False, force_run=False))
+    return dict(suspensions=[], assignments=asg)
+
+
+POLICIES = dict(naive=policy_naive, random=policy_random, idle=policy_idle, mixing=policy_mixing,
+                chainpack=policy_chainpack)
 
 
 # ------------------------------------------------------------------------------------------------
@@ -1000,6 +1034,30 @@ def gen_segs(rng, tps, ram):
     return segs
 
 
+def gen_rest_chain(rng):
+    """chain pipelines (every operator depends on all earlier ones) under the chain-packing policy: containers are
+    killed with operators queued behind the failing one, and the retry runs while those are still failed"""
+    tps, poll = rng.choice([(1, 1.0), (2, 0.5), (4, 0.5), (10, 0.1), (10, 0.5), (2, 1.0)])
+    per_poll = max(1, poll * tps)
+    nticks = rng.randint(30, 120)
+    ram = rng.choice([4, 8, 16])
+    r = dict(gen='G-rest', tps=tps, poll=poll, duration=nticks / tps, npools=rng.randint(1, 2), cpu=rng.choice([2, 4]),
+             ram=ram, multi=1, over=int(rng.random() < 0.3),
+             policy=dict(name='chainpack', seed=rng.randrange(10 ** 6), retry=True, multi=True, p_susp=0.0, p_blind=0.0,
+                         big=False))
+    arrivals = []
+    t = rng.choice([0, 0, 1, 3])
+    for _ in range(rng.randint(1, 5)):
+        if t >= nticks:
+            break
+        n = rng.randint(2, 4)
+        dag = [list(range(j)) for j in range(n)]
+        arrivals.append((t, rng.choice([1, 2, 3]), dag, [gen_segs(rng, tps, ram) for _ in range(n)]))
+        t += rng.choice([0, 1, 2, int(per_poll), int(2 * per_poll) + 1, rng.randint(1, 20)])
+    r['arrivals'] = arrivals
+    return r
+
+
 def gen_mixing_arrivals(rng, tps, nticks, per_poll):
     """single-operator pipelines and short chains, small fixed memory (so that containers succeed), several per tick:
     two pipelines are ready at the same time, and a pipeline's last operator completes in the middle of a container"""
@@ -1134,9 +1192,14 @@ def run(ctx):
     nt = set()
     exact = [(1, 1.0), (2, 0.5), (2, 2.5), (4, 0.5), (1, 2.5), (2, 1.0), (4, 1.0)]
     with Server() as server:
-        for i in range(ctx.budget(80, 1500)):
+        n_rest = ctx.budget(80, 1500)
+        for i in range(n_rest + ctx.budget(16, 300)):
             rng = ctx.case_rng('G-rest', i)
-            r = gen_rest(rng, force=exact[i % len(exact)] if i % 3 == 0 else None)
+            if i >= n_rest:
+                r = gen_rest_chain(rng)
+                st['chainpack_runs'] += 1
+            else:
+                r = gen_rest(rng, force=exact[i % len(exact)] if i % 3 == 0 else None)
             r['case_index'] = i
             case, h, info = drive(r, server)
             cases.append(case)
